@@ -1,4 +1,5 @@
 import Mkdb.Proofs.Tree
+import Mkdb.Proofs.Forest
 /-!
 # C11 — the on-disk B+ tree keeps its shape invariants
 
@@ -75,6 +76,18 @@ theorem C11_lookup_after_history (off nf : Nat) (h : off < nf) (ops : List TOp) 
     (hc : c ∈ cells (runOps (emptyTree off, nf) ops).1) :
     lookup (runOps (emptyTree off, nf) ops).1 c.key = some c :=
   lookup_finds _ _ (C11_every_history off nf h ops) c hc
+
+/-- **C11.heap_roundtrip**: the levels representation loses nothing with respect to the page heap: reading
+a well-formed tree back from its own pages (`ofHeap`, the function the cross-check with the heap model
+uses) returns the tree itself. -/
+theorem C11_heap_roundtrip (t : Levels) (nf : Nat) (h : Inv t nf) (extra : Nat) :
+    ofHeap (heapOf t) (t.inner.length + 2 + extra) (rootOff t) = some t := ofHeap_flatten_fuel t nf h extra
+
+/-- **C11.pages_come_from_the_frontier**: an insert reuses the tree's own pages and otherwise only takes
+pages from the allocation frontier, so trees sharing a file never overlap. -/
+theorem C11_pages_come_from_the_frontier (t t' : Levels) (k lsn nf nf' : Nat) (v : Bytes)
+    (h : insertAppend t k lsn v nf = .ok (t', nf')) : ∀ o ∈ offs t', o ∈ offs t ∨ (nf ≤ o ∧ o < nf') :=
+  insertAppend_offs_new t t' k lsn nf nf' v h
 
 /-- non-vacuity: 20 inserts from the empty tree force three leaf splits and a root; the result has
 4 leaves under one internal node -/
